@@ -75,3 +75,6 @@ CHECKS["C24"] = ("in-process property-based testing with real threads under Thre
 CHECKS["C25"] = ("in-process property-based testing with a stopper thread at generated delays under ThreadSanitizer and ASan/UBSan",
                  "Weak by nature: the moment of the stop request is sampled (landing point measured). Result must be unknown or the solo answer, no sanitizer report. Exploration only.",
                  "TSan happens-before detection; solo run as reference", "DESIGN.md §4 C25, §7")
+CHECKS["C18"] = ("grammar-based fault injection (Hypothesis) and token-level mutation of the regression corpus, run on the ASan/UBSan executable as file and pipe input",
+                 "Generated near-valid scripts and mutated regression files; any crash, abort, uncaught exception, sanitizer report, unexpected exit status, unsignalled error or hang without check-sat is a violation (known crash sites are keyed by fingerprint). The in-process libFuzzer target of the design (fz_interpret) is not built. Exploration only.",
+                 "sanitizer build; our S-expression reader decides 'unbalanced'", "DESIGN.md §4 C18")
